@@ -106,6 +106,23 @@ def run(ctx):
         n0 = mf.ngtm
         if not (len(n0) == len(mf.m) and np.all(np.isfinite(n0)) and np.all(n0 >= 0) and np.all(np.diff(n0[n0 > 0]) <= 0)):
             viol("massfunction/high-z", "z=20: ngtm has NaN/negative/increasing entries or the wrong length")
+        # sequences on one object: after parameter changes (dict-valued ones replaced, not merged) the cumulative densities must be
+        # those of the *current* dn/dm including the automatically supplied high-mass tail, i.e. those of a fresh object
+        seqs = [[dict(hmf_params={}), dict(hmf_params={"p": 0.25})], [dict(z=1.0), dict(cosmo_params={}), dict(cosmo_params={"H0": 72.0})],
+                [dict(hmf_model="PS", hmf_params={}), dict(z=0.5)]]
+        for seq, between in [(q_, b_) for q_ in seqs for b_ in (False, True)]:
+            o = MassFunction(hmf_model="SMT", hmf_params={"a": 0.8}, cosmo_params={"Om0": 0.3}, Mmin=10.0, Mmax=14.0, dlog10m=0.1, **base)
+            o.ngtm; o.rho_gtm
+            for step in seq:
+                o.update(**step)
+                if between:
+                    o.ngtm
+            fr = MassFunction(**{k_: (dict(v_) if isinstance(v_, dict) else v_) for k_, v_ in o.parameter_values.items()})
+            nmf += 1
+            for q in ("ngtm", "rho_gtm"):
+                a_, b_ = getattr(o, q), getattr(fr, q)
+                if not np.allclose(a_, b_, rtol=1e-10, atol=0):
+                    viol(f"massfunction/sequence/{q}", f"after {seq} on one object, {q} differs from a fresh object's by up to {float(np.max(np.abs(a_ / b_ - 1))):.3g} (stale high-mass tail?)", {"sequence": str(seq)})
         ans = lean_driver(lines)
         nbad = 0
         for (got, desc), a in zip(exp, ans):
